@@ -55,8 +55,39 @@ class float16(float32):
 
 
 class int32(signedinteger):
+    """narrow integers are NOT modelled (one unbounded int kind): np.int8(x) is x; checks that depend on the width are
+    decided by their real-stack replay only"""
     def __new__(cls, x=0):
-        return int(x)
+        return x if isinstance(x, Sym) else int(x)
+
+
+class int16(int32):
+    pass
+
+
+class int8(int32):
+    pass
+
+
+class unsignedinteger(integer):
+    pass
+
+
+class uint8(unsignedinteger):
+    def __new__(cls, x=0):
+        return x if isinstance(x, Sym) else int(x)
+
+
+class uint16(uint8):
+    pass
+
+
+class uint32(uint8):
+    pass
+
+
+class uint64(uint8):
+    pass
 
 
 class bool_(generic):
@@ -110,7 +141,7 @@ class dtype(object):
             s = spec.lstrip('<>=|')
             if s in ('f', 'f8', 'float', 'float64', 'd', 'f4', 'float32'):
                 return 'f'
-            if s in ('i', 'i8', 'int', 'int64', 'l', 'i4', 'int32', 'intp'):
+            if s in ('i', 'i8', 'int', 'int64', 'l', 'i4', 'int32', 'intp', 'i2', 'i1', 'int16', 'int8', 'u1', 'u2', 'u4', 'u8', 'uint8', 'uint16', 'uint32', 'uint64', 'uint'):
                 return 'i'
             if s in ('b', 'bool', '?', 'b1'):
                 return 'b'
